@@ -42,7 +42,7 @@ def check(circ, target_group, m, mon, np_seed=0, max_branches=64, backends=("Sta
     nb = 0
     for outs, prob, st in circsim.branches(prog.ops, n_p, n_e, prog.n_c, order, max_branches=max_branches):
         nb += 1
-        ok = np.allclose(st.rho, exp_rho, atol=1e-8) if st.rho is not None else pauli.same_group_fast(st.group, exp_group)
+        ok = np.allclose(st.rho, exp_rho, atol=1e-8, rtol=0) if st.rho is not None else pauli.same_group_fast(st.group, exp_group)
         if not ok:
             got = st.group.labels()[:10] if st.group is not None else None
             out.append(("outcome_branch_does_not_give_target", {"outcomes": {str(k): v for k, v in outs.items()}, "branch_probability": prob,
@@ -75,7 +75,7 @@ def check(circ, target_group, m, mon, np_seed=0, max_branches=64, backends=("Sta
                 out.append((v[0][0], {"backend": backend, "setting": repr(det), **v[0][1], "program": prog.text()}))
                 return out
             ref = runs[0].ref
-            ok = np.allclose(ref.rho, exp_rho, atol=1e-8) if ref.rho is not None else pauli.same_group_fast(ref.group, exp_group)
+            ok = np.allclose(ref.rho, exp_rho, atol=1e-8, rtol=0) if ref.rho is not None else pauli.same_group_fast(ref.group, exp_group)
             if not ok:
                 out.append(("compiled_state_is_not_target", {"backend": backend, "setting": repr(det), "program": prog.text()}))
                 return out
